@@ -363,9 +363,10 @@ def with_post(models):
 def fixed_workloads():
     A = {'models': {'P': mspec('pheno', 'pheno', 'PHENOBARB SIMPLE MODEL', res=True), 'I': mspec('init', 'run2', 'other inits')},
          'w1': [['init'], ['store', 'P'], ['store', 'I'], ['log', 'info', 'stored two models', None]]}
-    B = {'models': {'P': mspec('pheno', 'base', 'base model'), 'C': mspec('pheno', 'copy', 'same key, other name'),
-                    'D': mspec('data', 'newdata', 'other dataset')},
-         'w1': [['init'], ['store', 'P'], ['store', 'C'], ['annot', 'base', 'edited description'], ['store', 'P'],
+    # names in prefix relation, the longer one stored first (run10, run1, run100)
+    B = {'models': {'P': mspec('pheno', 'run10', 'base model'), 'C': mspec('pheno', 'run1', 'same key, other name'),
+                    'D': mspec('data', 'run100', 'other dataset')},
+         'w1': [['init'], ['store', 'P'], ['store', 'C'], ['annot', 'run10', 'edited description'], ['store', 'P'],
                 ['store', 'D']]}
     C = {'models': {'T': mspec('ditype', 'dityp', 'other datainfo'), 'P': mspec('pheno', 'pheno', 'plain'),
                     'D': mspec('data', 'dat', 'third')},
@@ -374,13 +375,33 @@ def fixed_workloads():
     return [A, B, C]
 
 
+# names in prefix relation, differing in case only, with regex-special characters
+REL_NAMES = ['run10', 'run1', 'run100', 'a', 'ab', 'abc', 'Run1', 'RUN1', 'm.1', 'm+1', 'm1', 'x*', '(y)', '[z]', 'z',
+             'final', 'fin', 'input', 'in', 'mod$', 'mod^2', 'n|m', 'q?']
+
+
+def fixed_codec_workloads():
+    """deterministic annotation workloads: prefix-related names in both store orders, re-annotation"""
+    m = {'M0': mspec('pheno', 'm0', 'd')}
+    seqs = [
+        [('run10', 'ten'), ('run1', 'one'), ('run100', 'hundred'), ('run1', 'one again'), ('run10', 'ten again')],
+        [('run1', 'one'), ('run10', 'ten'), ('run', 'stem'), ('run1', 'uno'), ('run10 ', 'trailing')][:4],
+        [('ab', 'x y'), ('a', 'z'), ('A', 'upper'), ('a', 'z2'), ('abc', 'w'), ('ab', 'x3')],
+        [('m.1', 'dot'), ('m+1', 'plus'), ('m1', 'plain'), ('x*', 'star'), ('x', 'bare'), ('(y)', 'paren'), ('m.1', 'dot2')],
+    ]
+    out = []
+    for seq in seqs:
+        out.append({'models': m, 'w1': [['init']] + [['annot', n, a] for n, a in seq]})
+    return out
+
+
 def gen_workload(rng, nitems):
     variants = ['pheno', 'init', 'data', 'ditype']
     nm = rng.choice([1, 2, 3, 3])
     models = {}
     for i in range(nm):
         v = rng.choice(variants)
-        name = rng.choice(['m%d' % i, 'run%d' % i, 'final', 'input', 'mod_%d' % i])
+        name = rng.choice(['m%d' % i, 'run%d' % i, 'final', 'input', 'mod_%d' % i] + REL_NAMES)
         if any(ms['name'] == name for ms in models.values()) and rng.random() < 0.7:
             name += str(i)
         models[f'M{i}'] = mspec(v, name, rng.choice(MODEL_DESCS), res=rng.random() < 0.3)
@@ -412,7 +433,7 @@ def gen_codec_workload(rng):
     w1 = [['init']]
     for _ in range(rng.choice([2, 3, 4, 6])):
         if rng.random() < 0.5:
-            name = rng.choice(['m0', 'a', 'b', 'name', 'x1'] + (['two words'] if rng.random() < 0.1 else []))
+            name = rng.choice(['m0', 'a', 'b', 'name', 'x1'] + REL_NAMES + (['two words'] if rng.random() < 0.1 else []))
             w1.append(['annot', name, rng.choice(TEXTS + (BAD_ANNOT if rng.random() < 0.3 else []))])
         else:
             w1.append(['log', rng.choice(['info', 'warning']), rng.choice(LOG_TEXTS + (BAD_LOG if rng.random() < 0.35 else [])), None])
@@ -605,6 +626,11 @@ def run(ctx):
         ctx.log(f'fixed workloads: {len(s1)} cases run on the implementation')
         ncodec = 24 if quick else 400
         codec = []
+        for wl in fixed_codec_workloads():
+            wl = dict(wl)
+            wl['crash'], wl['torn'] = None, None
+            wl['w2'] = recovery_items(wl['w1'], wl['models'], extra_stores=False)
+            codec.append(wl)
         for _ in range(ncodec):
             wl = gen_codec_workload(ctx.rng)
             wl['crash'], wl['torn'] = None, None
